@@ -83,7 +83,8 @@ fn schemes() -> Vec<Scheme> {
         ),
         Scheme::new(
             "ab",
-            &[("a", "a"), ("b", "ab"), ("x", "a-"), ("f", "aa"), ("g", "aaa")],
+            // (b is a written twice, the file leaf is a written three times: repetition, not only prefix)
+            &[("a", "a"), ("b", "aa"), ("x", "a-"), ("f", "aaa"), ("g", "ab")],
         ),
         // the outside directory and the file leaf are prefixes of the target names
         Scheme::new(
@@ -795,6 +796,8 @@ fn cmd_cfgrandom(args: &[String]) {
     let names = [
         "app", "app2", "app-web", "ap", "a", "ab", "lib", "lib2", "core", "core.x", "sp ce",
         "\u{fc}n\u{ef}", "x", "xy", "srv", "srv_b",
+        // names that are another name written twice (a / aa, ab / abab, lib / liblib)
+        "aa", "abab", "liblib",
     ];
     let id = Scheme::identity();
     let mut sink = Sink::new();
